@@ -9,6 +9,7 @@ from vlib import typegrammar as tg
 LEVEL = "exploration"
 SHARDS = {"quick": 4, "thorough": 16}
 TIMEOUT = {"quick": 600, "thorough": 1800}
+MIN_EVALUATIONS = {"quick": 300000, "thorough": 300000}  # fewer oracle evaluations than this means the workload collapsed: inconclusive
 RULE = ("differential of T.encode / T.decode against vlib/refcodec.py: exhaustive over all 256 / 65536 byte patterns and "
         "values of every exported 1- and 2-byte type; boundaries, walking bits, special float bit patterns and seeded random "
         "values for 4/8-byte types; strings over every prefix/character width at lengths 0..300 plus prefix limits; "
